@@ -235,7 +235,8 @@ def decide_and_report(M, tier, seed, results, dead, nshards, wall_s):
             "distinct_nontrivial": int(len(mg["hashes"])),
             "rule": M.rule,
             "samples": samples[:12],
-            "exhaustive": bool(exhaustive) and all(e["complete"] for e in exhaustive.values()) and not incon,
+            "exhaustive": bool(M.exhaustive_claim) and bool(exhaustive) and all(e["complete"] for e in exhaustive.values()) and not incon,
+            "exhaustive_scope": M.exhaustive_claim or "none: sampled workload (finite enumerations listed under 'enumerations' are auxiliary)",
             "enumerations": exhaustive,
             "postconditions_evaluated": mg["checks"],
             "per_clause": {n: {k: v for k, v in cs.items()} for n, cs in sorted(mg["clauses"].items())},
